@@ -875,6 +875,104 @@ theorem appendRequest_le_ms (e : Env) (c : Cfg) (v corr pid ep : Int) (ts : List
     List.length_nil, Int.natCast_add] at ht ⊢
   omega
 
+/-! ## timestamps of a buffered batch -/
+
+/-- `firstTimestamp + delta` is each record's own timestamp; `maxTimestampDelta` is the largest delta (≥ 0, attained) -/
+structure TsInv (b : Batch) : Prop where
+  delta : ∀ pr ∈ b.records, b.firstTimestamp + pr.tsDelta = pr.r.ts
+  le : ∀ pr ∈ b.records, pr.tsDelta ≤ b.maxTimestampDelta
+  empty : b.records = [] → b.maxTimestampDelta = 0
+  attained : b.records ≠ [] → ∃ pr ∈ b.records, pr.tsDelta = b.maxTimestampDelta
+
+theorem tsInv_new : TsInv newRecordBatch := by
+  constructor <;> simp [newRecordBatch]
+
+theorem tryBuffer_tsInv (b b' : Batch) (r : Rec) (pv m : Int) (hb : TsInv b)
+    (h : tryBuffer b r pv m = some b') : TsInv b' := by
+  unfold tryBuffer at h
+  simp only at h
+  split at h
+  · simp at h
+  · simp only [Option.some.injEq] at h
+    subst h
+    by_cases he : b.records = []
+    · have hm := hb.empty he
+      constructor <;> simp [appendRecord, calculateRecordNumbers, he, hm]
+    · have hl : ¬ b.records.length = 0 := by
+        intro h0; exact he (List.length_eq_zero_iff.mp h0)
+      constructor
+      · intro pr hpr
+        simp only [appendRecord, hl, if_false, List.mem_append, List.mem_singleton] at hpr ⊢
+        rcases hpr with hpr | hpr
+        · exact hb.delta pr hpr
+        · subst hpr; simp [calculateRecordNumbers, hl]; omega
+      · intro pr hpr
+        simp only [appendRecord, hl, if_false, List.mem_append, List.mem_singleton] at hpr ⊢
+        rcases hpr with hpr | hpr
+        · have := hb.le pr hpr; split <;> omega
+        · subst hpr; simp only [calculateRecordNumbers, hl, if_false]; split <;> omega
+      · intro h0; simp [appendRecord] at h0
+      · intro _
+        simp only [appendRecord, hl, if_false, List.mem_append, List.mem_singleton]
+        by_cases hgt : (calculateRecordNumbers b r).2 > b.maxTimestampDelta
+        · simp only [hgt, if_true]
+          exact ⟨_, Or.inr rfl, rfl⟩
+        · simp only [hgt, if_false]
+          obtain ⟨pr, hpr, hq⟩ := hb.attained he
+          exact ⟨pr, Or.inl hpr, hq⟩
+
+/-- any property of batches that holds of the empty batch and is kept by `tryBuffer` holds of every buffered batch -/
+theorem bufferRecord_pred (Q : Batch → Prop) (bs : List Batch) (r : Rec) (pv m : Int) (hQ0 : Q newRecordBatch)
+    (hstep : ∀ b b', Q b → tryBuffer b r pv m = some b' → Q b') (h : ∀ b ∈ bs, Q b) :
+    ∀ b ∈ (bufferRecord bs r pv m).1, Q b := by
+  unfold bufferRecord
+  simp only
+  cases bs with
+  | nil =>
+    simp only
+    cases hn : tryBuffer newRecordBatch r pv m with
+    | none => simpa using h
+    | some nb =>
+      intro b hb
+      simp only [List.mem_cons, List.not_mem_nil, or_false] at hb
+      subst hb; exact hstep _ _ hQ0 hn
+  | cons last rest =>
+    simp only
+    cases hl : tryBuffer last r pv m with
+    | some b' =>
+      intro b hb
+      rcases List.mem_cons.1 hb with hb | hb
+      · subst hb; exact hstep _ _ (h last (List.mem_cons_self ..)) hl
+      · exact h b (List.mem_cons_of_mem _ hb)
+    | none =>
+      simp only
+      cases hn : tryBuffer newRecordBatch r pv m with
+      | none => simpa using h
+      | some nb =>
+        intro b hb
+        rcases List.mem_cons.1 hb with hb | hb
+        · subst hb; exact hstep _ _ hQ0 hn
+        · exact h b hb
+
+theorem bufferAll_pred (Q : Batch → Prop) (pv m : Int) (hQ0 : Q newRecordBatch)
+    (hstep : ∀ r b b', Q b → tryBuffer b r pv m = some b' → Q b') (rs : List Rec) (bs : List Batch) (h : ∀ b ∈ bs, Q b) :
+    ∀ b ∈ (bufferAll pv m bs rs).1, Q b := by
+  induction rs generalizing bs with
+  | nil => simpa [bufferAll] using h
+  | cons r rs ih =>
+    unfold bufferAll
+    rcases hb : bufferRecord bs r pv m with ⟨bs', ok⟩
+    have h' := bufferRecord_pred Q bs r pv m hQ0 (hstep r) h
+    rw [hb] at h'
+    simp only
+    rcases hr : bufferAll pv m bs' rs with ⟨bs'', idx⟩
+    have := ih bs' h'
+    rw [hr] at this
+    simpa using this
+
+theorem bufferAll_tsInv (pv m : Int) (rs : List Rec) : ∀ b ∈ (bufferAll pv m [] rs).1, TsInv b :=
+  bufferAll_pred TsInv pv m tsInv_new (fun r b b' hb h => tryBuffer_tsInv b b' r pv m hb h) rs [] (by simp)
+
 /-! ## a few concrete LEB128 lengths (for the counterexample) -/
 theorem l0 : lenU 0 = 1 := Proof.C17.lenU_lt (by omega)
 theorem l62 : lenU 62 = 1 := Proof.C17.lenU_lt (by omega)
